@@ -148,7 +148,22 @@ def check_function(fn: Any, K: int = 2, timeout_ms: int = 20000) -> dict:
     entry = (blocks[0], 0)
     zero = z3.IntVal(0)
     init_state = {v: (zero, z3.BoolVal(False)) for v in tracked}
-    incoming[entry].append((z3.BoolVal(True), init_state, []))
+    # attribute initialisation in __init__: per attribute of self "may already hold a value"
+    self_reg = fn.arg_regs[0] if (getattr(fn, "class_name", None) and fn.name == "__init__" and fn.arg_regs) else None
+    init_attrs: dict = {}
+    if self_reg is not None:
+        for b_ in blocks:
+            for op_ in b_.ops:
+                if type(op_).__name__ == "SetAttr" and op_.obj is self_reg:
+                    init_attrs[op_.attr] = z3.BoolVal(False)
+        try:
+            cl_ = self_reg.type.class_ir
+            for a_ in list(init_attrs):
+                if any(a_ in getattr(base_, "attrs_with_defaults", set()) for base_ in cl_.mro):
+                    init_attrs[a_] = z3.BoolVal(True)  # set by the class-body defaults before __init__ runs
+        except AttributeError:
+            pass
+    incoming[entry].append((z3.BoolVal(True), init_state, dict(init_attrs)))
     obligations: list = []  # (kind, cond, value, where)
     fresh = [0]
     branch_vars: list = []
@@ -175,6 +190,14 @@ def check_function(fn: Any, K: int = 2, timeout_ms: int = 20000) -> dict:
                 if ist[v][1] is not e:
                     e = z3.If(ic, ist[v][1], e)
             state[v] = (o, e)
+        adef: dict = {}
+        for a_ in init_attrs:
+            t_ = ins[0][2].get(a_, z3.BoolVal(False)) if isinstance(ins[0][2], dict) else z3.BoolVal(False)
+            for ic, _, iad in ins[1:]:
+                t2_ = iad.get(a_, z3.BoolVal(False)) if isinstance(iad, dict) else z3.BoolVal(False)
+                if t2_ is not t_:
+                    t_ = z3.If(ic, t2_, t_)
+            adef[a_] = t_
 
         def dec(v: Any, amount: Any, where: str) -> None:
             if v in state:
@@ -198,7 +221,7 @@ def check_function(fn: Any, K: int = 2, timeout_ms: int = 20000) -> dict:
             if isinstance(op, Goto):
                 incoming_target = [m for ti, m in edges_out[n] if ti == 0]
                 for m in incoming_target:
-                    incoming[m].append((cond, dict(state), []))
+                    incoming[m].append((cond, dict(state), dict(adef)))
                 continue
             if isinstance(op, Branch):
                 if op.op == Branch.IS_ERROR and op.value in state:
@@ -213,9 +236,33 @@ def check_function(fn: Any, K: int = 2, timeout_ms: int = 20000) -> dict:
                     cv = z3.Not(cv)
                 for ti, m in edges_out[n]:
                     ec = z3.And(cond, cv if ti == 0 else z3.Not(cv))
-                    incoming[m].append((ec, dict(state), []))
+                    incoming[m].append((ec, dict(state), dict(adef)))
                 continue
             # ---- ordinary ops
+            if self_reg is not None and init_attrs:
+                tn = type(op).__name__
+                if tn == "SetAttr" and op.obj is self_reg:
+                    if getattr(op, "is_init", False):
+                        # an initialising store does not release the previous value: it must not exist
+                        obligations.append(("init-overwrite", cond, op, where + f" (attribute {op.attr})", z3.If(adef[op.attr], z3.IntVal(1), z3.IntVal(0))))
+                    adef[op.attr] = z3.BoolVal(True)
+                elif tn in ("Call", "MethodCall", "CallC", "PrimitiveOp") and any(a_ is self_reg for a_ in op.sources()):
+                    base_init = tn == "Call" and getattr(op.fn, "class_name", None) and op.fn.name == "__init__"
+                    leak_ = True
+                    maybe_: "set | None" = None
+                    if base_init:
+                        try:
+                            bcl_ = op.fn.sig.args[0].type.class_ir
+                            leak_ = bool(bcl_.init_self_leak)
+                            maybe_ = {a2 for base_ in bcl_.mro for a2 in base_.attributes}
+                        except AttributeError:
+                            leak_ = True
+                    for a_ in list(adef):
+                        if leak_ or maybe_ is None or a_ in maybe_:
+                            adef[a_] = z3.Or(adef[a_], newbool(f"attrset_{a_}"))
+                elif tn == "Assign" and (op.src is self_reg or op.dest is self_reg):
+                    for a_ in list(adef):
+                        adef[a_] = z3.Or(adef[a_], newbool(f"attrset_{a_}"))
             if isinstance(op, IncRef):
                 if op.src in state:
                     o, e = state[op.src]
@@ -295,7 +342,7 @@ def check_function(fn: Any, K: int = 2, timeout_ms: int = 20000) -> dict:
     solver_s = 0.0
     seen_keys: set = set()
     for kind, cond, v, where, term in obligations:
-        bad = term < 0 if kind == "negative" else term != 0
+        bad = term < 0 if kind == "negative" else term != 0  # init-overwrite: term is 1 where the attribute may hold a value
         f = z3.simplify(z3.And(cond, bad))
         if z3.is_false(f):
             discharged += 1
@@ -314,6 +361,9 @@ def check_function(fn: Any, K: int = 2, timeout_ms: int = 20000) -> dict:
                 continue
             seen_keys.add(key)
             decisions = sorted((str(d), z3.is_true(m[d])) for d in m.decls() if str(d).startswith(("br_", "err_", "iserr_")))
+            if kind == "init-overwrite":
+                findings.append(Finding("leak of the old attribute value (store marked as initialiser although the attribute may already be set)", fn.name, "self." + v.attr, where, decisions, f"initialising SetAttr at {where} on a path where self was visible to other code before"))
+                continue
             findings.append(Finding("double-free" if kind == "negative" else ("leak" if val.as_long() > 0 else "over-release"), fn.name, vname(v, names), where, decisions, f"owned count {val} at {where}"))
         else:
             findings.append(Finding("inconclusive", fn.name, vname(v, names), where, [], "solver timeout"))
